@@ -1,6 +1,7 @@
 package main
 
 import (
+	"strconv"
 	"fmt"
 	"regexp"
 	"sync"
@@ -240,7 +241,15 @@ func builtinIntrinsics() map[string]intrinsic {
 		return Tuple{m.f.Const(64, 0), m.str("?"), m.f.Const(64, 0), m.f.fls}
 	}
 	I["github.com/pkg/errors.callers"] = func(m *Machine, _ *frame, a []Value) Value { return (*Value)(nil) }
-	I["os.Getenv"] = func(m *Machine, _ *frame, a []Value) Value { return m.emptyStr }
+	// the environment is empty, except for variables an instance sets through a parameter "env:NAME" (value printed in decimal)
+	I["os.Getenv"] = func(m *Machine, _ *frame, a []Value) Value {
+		if s, ok := a[0].(*Str); ok && s.IsConc() {
+			if v, set := m.params["env:"+s.s]; set {
+				return m.str(strconv.Itoa(v))
+			}
+		}
+		return m.emptyStr
+	}
 	I["os.LookupEnv"] = func(m *Machine, _ *frame, a []Value) Value { return Tuple{m.emptyStr, m.f.fls} }
 	I["os.Exit"] = func(m *Machine, _ *frame, a []Value) Value { panic(pathAbort{abExit, "os.Exit"}) }
 
